@@ -1,3 +1,4 @@
+import Gtree.Lemmas.SourceConfig
 import Gtree.Lemmas.SourceRefines
 import Gtree.Lemmas.Validate
 import Gtree.Lemmas.MkdirCounts
@@ -122,4 +123,24 @@ theorem C09_counts_are_created_massive (f : Fmt) (exts : List Bytes) (ts : List 
   simp only [mkdirRoots, hnone, Bool.false_eq_true, if_false] at h2
   rw [mkdirRoots_go_forest f exts ts hts roots fs hg] at h2
   exact h2
+end Gtree
+
+namespace Gtree
+open Gtree.Src in
+/-- **The dry-run option, in the source (config.go, translated on this run)**: for EVERY list of public options — nil
+    entries, repetitions, any order, any other options before or after — the configuration an operation works with
+    has dry run switched on exactly when `WithDryRun()` is in the list; this holds for the configuration of Output
+    (`newConfig`) and for that of Mkdir / Verify / Walk (`newConfigWithoutEncode`), whose encoding is the default
+    whatever encoding options were given. -/
+theorem C09_dry_run_option_in_the_source (os : List Opt) :
+    (newConfig (os.map Opt.fn)).dryrun = os.any Opt.isDryRun ∧
+    (newConfigWithoutEncode (os.map Opt.fn)).dryrun = os.any Opt.isDryRun ∧
+    (newConfigWithoutEncode (os.map Opt.fn)).encode = encodeDefault := by
+  rw [newConfigWithoutEncode_src, newConfig_src, dryrun_fold, defaultConfig_fields.1]
+  refine ⟨by rw [Bool.false_or], by rw [Bool.false_or], rfl⟩
+
+/-- every option sets its own field only: the configuration is the options applied in order to the default one -/
+theorem C09_options_apply_in_order_in_the_source (os : List Opt) :
+    Src.newConfig (os.map Opt.fn) = os.foldl Opt.apply defaultConfig :=
+  newConfig_src os
 end Gtree
